@@ -30,6 +30,17 @@ CLAIMED['C12'] = dict(
          'objects themselves, and the reasoned exception table NOT_A_LISTING (5 loops that compute names/booleans only).',
     ref='DESIGN.md section 3, C12')
 
+CLAIMED['C08'] = dict(
+    technique='barrier-shape rules (CFG must-pass-through, def-use) + per-call-site upward exception propagation on the call graph',
+    text='Static: the parse barrier invokes the parser only inside a catch-all whose handlers rebuild the result from the plaintext parser '
+         'applied to the unmodified docstring parameter, record a ParseError and report on every path (R08.1); format parsers are only '
+         'called from the barrier or inside the markup layer (R08.2); for every to_stan()/to_node() call site the failure it can produce is '
+         'stopped by a handler on every call path to a run entry (R08.3); safe_to_stan fallbacks cannot raise (R08.4); summary/toc guards '
+         '(R08.5) and once-per-object reporting (R08.6). Decides the barrier discipline, not parser termination nor the text shown.',
+    note='Assumes non-total to_stan() implementations may raise any Exception and to_node() NotImplementedError; trusts the call graph '
+         'models (fallback= callables, renderers) and that plaintext parsing/rendering is total.',
+    ref='DESIGN.md section 3, C08')
+
 NOT_APPLICABLE = {
     'C04': 'relation between expandName results and the interpreter import system over all projects: value computations, no clause visible in the shape of the code (DESIGN.md section 5)',
     'C06': 'quantifies over processing schedules; name resolution during the AST walk is order sensitive by design, no structural bound (DESIGN.md section 5); the one structural fact (post-processing after the drain loop) is checked under C05',
